@@ -277,6 +277,8 @@ fn check_built(c: &BuiltCase, ctx: &Ctx) -> Outcome {
         must_ok(&build(ctx, &dir, "x", &samples, k, rc, 1), "ska build")?;
         let fa = c.freq.arg(n);
         let ts = c.threads.to_string();
+        // -o into an existing, longer file: it must be replaced
+        cli::plant_stale_output(&dir.join("d.txt"));
         let mut args: Vec<&str> = vec!["distance", "x.skf", "--min-freq", &fa, "-o", "d.txt"];
         if c.allow_ambiguous {
             args.push("--allow-ambiguous");
